@@ -14,6 +14,9 @@ EQUIV = {
     ('C19', 'count_shift3'): 'equivalent: at the detent the quarter-step count is even (parity invariant), so (n+1)>>2 == n>>2',
     ('C20', 'wrap_adjust_gt'): 'equivalent: head == 256 adds 256, which is 0 modulo the 256 slots',
     ('C07', 'ring_acq_rel_correct_weakening'): 'a *correct* weakening (release store): must not be reported, and is not',
+    ('C07', 'correct_weakening_mq_send_release'): 'a *correct* weakening (release fetch_or on the flag word; the receiver still acquires): must not be reported, and is not',
+    ('C07', 'correct_weakening_ring_acq_rel'): 'a *correct* weakening (acquire loads of the other index, release store of the own index): must not be reported, and is not',
+    ('C07', 'correct_weakening_mq_counter_acq_rel'): 'a *correct* weakening (release on messageq_release, acquire on the claim of the counter): must not be reported, and is not',
 }
 
 out = ['## 8. Sensitivity: which check catches which change', '',
